@@ -105,6 +105,54 @@ def block_type_tables(ctx, P):
                   ok, function=path, table=got)
 
 
+def header_line_separator(ctx, P):
+    """Every armor header line the writer emits contains the `: ` separator: no iteration of the header loops writes anything
+    while avoiding the write of the separator (RFC 9580 §6.2: `Key: Value` — the dearmorer splits lines at this separator)."""
+    from rules.common import single_defs
+    b = ctx.body('armor::writer::write_header')
+    if b is None:
+        return
+    defs = single_defs(b)
+    writes = call_blocks(b, r'Write::write_all$')
+    sep = [i for i in writes if _const_str_b(b, b.blocks[i]['t']['args'][1], defs) == ': ']
+    heads = call_blocks(b, r'Iterator::next$')
+    bad = None
+    for h in heads:
+        fwd = b.reach_from([j for j, _ in b.succ(h)], removed=frozenset(sep))
+        if h not in fwd:
+            continue
+        for w in writes:
+            if w in sep or w not in fwd:
+                continue
+            back = b.reach_from([j for j, _ in b.succ(w)], removed=frozenset(sep))
+            if h in back:
+                bad = (h, w)
+    ctx.check(P + ':S10-5:header-line-has-separator', 'R-seq', 'write_header: every loop iteration that writes anything writes the `: ` separator',
+              bool(sep) and len(heads) >= 2 and bad is None, function=b.path, site=site(b, bad[1]) if bad else None,
+              missing=None if bad is None else 'a header line can be written without the `: ` separator')
+
+
+def _const_str_b(b, o, defs):
+    from rules.common import resolve_value
+    for _ in range(5):
+        k, v = resolve_value(b, o, defs)
+        if k == 'constx' and 's' in v and v['s'].startswith('b"'):
+            return v['s'][2:-1]
+        if k == 'rv' and v['k'] == 'ref':
+            o = dict(l=v['p']['l'], pr=[x for x in v['p']['pr'] if x != '*'], mv=0)
+            if o['pr']:
+                return None
+            continue
+        if k == 'rv' and v['k'] == 'cast':
+            o = v['o'][0]
+            continue
+        if k == 'call' and v['f'].get('fn', '').endswith('ops::Index::index'):
+            o = v['args'][0]
+            continue
+        return None
+    return None
+
+
 def run(ctx):
     P = 'C10'
     stream.r_lost(ctx, P, 'S10-1')
@@ -114,8 +162,11 @@ def run(ctx):
         rdom(ctx, P + ':S10-2:footer-crc-checked', b, oks, [r'call:.*Dearmor::<R>::crc24_status$'],
              'read_footer returns Ok only after branching on crc24_status() (CheckedInvalid => error)')
         from rules.sig import conditional_guard
-        conditional_guard(ctx, P + ':S10-4:footer-type-matches-header', b, oks, r'field:Dearmor\.typ$', [r'call:.*PartialEq::ne$|call:.*PartialEq::eq$'],
+        conditional_guard(ctx, P + ':S10-4:footer-type-matches-header', b, oks, r'field:Dearmor\.typ$', [r'callty:std::cmp::PartialEq::(ne|eq)@&*armor::reader::BlockType$'],
                           'when a header type was seen, read_footer returns Ok only after comparing the footer block type with it (rejecting)')
+        der = [ctx.f.body(x) for x in ('<armor::reader::BlockType as std::cmp::PartialEq>::eq', '<armor::reader::PKCS1Type as std::cmp::PartialEq>::eq')]
+        ctx.check(P + ':S10-4:block-type-equality-structural', 'R-who', 'equality of BlockType (and its PKCS1Type parameter) is the derived structural comparison, so header and footer must agree in kind and parameters',
+                  all(d is not None and d.get('derived') for d in der), function=b.path)
         st = [i for i, blk in enumerate(b.blocks) for s in blk['s'] if s['d']['pr'] and s['d']['pr'][-1].endswith('Dearmor.checksum')]
         cs = call_blocks(b, r'crc24_status$')
         ok, _ = must_pass(b, cs, st) if cs else (False, None)
@@ -162,3 +213,4 @@ def run(ctx):
     stream.r_pair(ctx, P)
     stream.wrapper_finishers(ctx, P)
     block_type_tables(ctx, P)
+    header_line_separator(ctx, P)
